@@ -276,6 +276,47 @@ var Catalogue = []Mutation{
 			return true
 		}, true)
 	}},
+	{"ATT-TOO-OLD", "pabcd", func(m *MutCtx) bool {
+		// an honest, fully signed attestation of the previous epoch for a slot more than SLOTS_PER_EPOCH
+		// back: out of the inclusion window before Deneb, valid from Deneb on (EIP-7045)
+		sp := m.sp()
+		slot, spe := m.B.Message.Slot, sp.P.SLOTS_PER_EPOCH
+		prevStart := sp.StartSlotAtEpoch(sp.PreviousEpoch(m.Pre))
+		if slot <= spe || slot-spe <= prevStart {
+			return false
+		}
+		a := prevStart + uint64(m.Pr.n(int(slot-spe-prevStart)))
+		te := sp.EpochAtSlot(a)
+		if te == sp.CurrentEpoch(m.Pre) {
+			return false
+		}
+		d := refspec.AttestationData{Slot: a, Index: 0, BeaconBlockRoot: sp.GetBlockRootAtSlot(m.Pre, a), Source: m.Pre.PreviousJustifiedCheckpoint,
+			Target: refspec.Checkpoint{Epoch: te, Root: sp.GetBlockRoot(m.Pre, te)}}
+		committee := sp.BeaconCommittee(m.Pre, a, 0)
+		bits := make([]bool, len(committee))
+		var ks []uint64
+		for bi, vi := range committee {
+			k, ok := m.keyOfValidator(vi)
+			if !ok {
+				return false
+			}
+			bits[bi] = true
+			ks = append(ks, k)
+		}
+		if len(ks) == 0 {
+			return false
+		}
+		sr := sp.ComputeSigningRoot(sp.HTR("AttestationData", d.V()), sp.GetDomain(m.Pre, refspec.DOMAIN_BEACON_ATTESTER, te))
+		att := refspec.Attestation{Bits: bits, Data: d, Signature: refspec.AggregateSign(ks, sr)}
+		b := &m.B.Message.Body
+		if len(b.Attestations) > 0 {
+			b.Attestations[m.Pr.n(len(b.Attestations))] = att
+		} else {
+			b.Attestations = append(b.Attestations, att)
+		}
+		m.Benign = m.Pre.Fork >= refspec.Deneb
+		return true
+	}},
 	{"ATT-INDEX-OOR", "pabcd", func(m *MutCtx) bool {
 		return mutAtt(m, func(a *refspec.Attestation) bool {
 			a.Data.Index = m.sp().CommitteeCountPerSlot(m.Pre, a.Data.Target.Epoch) + uint64(m.Pr.n(2))
